@@ -80,9 +80,14 @@ package forkchoice
 //@   opt noalloc
 //@   ensures forall s SlotT, r RootT :: {has(m, NodeRef(s, r))} has(m, NodeRef(s, r)) == g_node(gver, s, r)
 
+// the epochs the graph was last told to judge head viability by (recorded: the wrapper must hand over justified, then finalized)
+//@ ghost n_asc int
+//@ ghost last_asc_just int
+//@ ghost last_asc_fin int
 //@ func (g ForkchoiceGraph) ApplyScoreChanges(deltas, justifiedEpoch, finalizedEpoch) err
 //@   trusted
-//@   assigns ghost(wver), deltas
+//@   assigns ghost(wver), deltas, ghost(n_asc), ghost(last_asc_just), ghost(last_asc_fin)
+//@   ensures n_asc == old(n_asc) + 1 && last_asc_just == justifiedEpoch && last_asc_fin == finalizedEpoch
 
 //@ func (g ForkchoiceGraph) OnPrune(ctx, anchorRoot, anchorSlot) err
 //@   trusted
@@ -113,7 +118,7 @@ package forkchoice
 //@   opt section=mu
 //@   opt pure_func=justifiedStateBalances
 //@   requires fc != nil && held(fc.mu) == 0 && fc.spec != nil && fc.spec.SLOTS_PER_EPOCH != 0 && fc.protoArray != nil && fc.voteStore != nil
-//@   assigns fc.balances, fc.justified, fc.finalized, fc.pin, ghost(gver), ghost(wver), ghost(vver), ghost(gcache)
+//@   assigns fc.balances, fc.justified, fc.finalized, fc.pin, ghost(gver), ghost(wver), ghost(vver), ghost(gcache), ghost(n_asc), ghost(last_asc_just), ghost(last_asc_fin)
 //@   ensures released: held(fc.mu) == 0
 //@   ensures atomic@C17: sections(fc.mu) <= old(sections(fc.mu)) + 1
 //@   ensures stale: old(fc.justified.Epoch) >= justified.Epoch && old(fc.finalized.Epoch) >= finalized.Epoch ==> err == nil && unchanged(fc.justified) && unchanged(fc.finalized) && unchanged(fc.pin) && gver == old(gver) && wver == old(wver) && vver == old(vver)
@@ -125,9 +130,10 @@ package forkchoice
 //@   property C10 C17
 //@   opt pure_func=justifiedStateBalances
 //@   requires fc != nil && held(fc.mu) == 2 && fc.protoArray != nil && fc.voteStore != nil
-//@   assigns fc.balances, fc.justified, fc.finalized, ghost(wver), ghost(vver), ghost(gcache)
+//@   assigns fc.balances, fc.justified, fc.finalized, ghost(wver), ghost(vver), ghost(gcache), ghost(n_asc), ghost(last_asc_just), ghost(last_asc_fin)
 //@   ensures lock: held(fc.mu) == 2
 //@   ensures applied: err == nil ==> fc.justified == justified && fc.finalized == finalized
+//@   ensures applied_epochs@C10: err == nil ==> n_asc == old(n_asc) + 1 && last_asc_just == justified.Epoch && last_asc_fin == finalized.Epoch
 //@   ensures failed: err != nil ==> unchanged(fc.justified) && unchanged(fc.finalized) && unchanged(fc.balances)
 //@   ensures refused_finalized: finalized != old(fc.finalized) && (g_unknown(gver, old(fc.finalized.Root), finalized.Root) || !g_insub(gver, old(fc.finalized.Root), finalized.Root)) ==> err != nil
 //@   ensures refused_justified: justified != old(fc.justified) && (g_unknown(gver, old(fc.finalized.Root), justified.Root) || !g_insub(gver, old(fc.finalized.Root), justified.Root)) ==> err != nil
@@ -135,10 +141,11 @@ package forkchoice
 //@   ensures refused_frame: justified.Epoch < finalized.Epoch || (finalized != old(fc.finalized) && (g_unknown(gver, old(fc.finalized.Root), finalized.Root) || !g_insub(gver, old(fc.finalized.Root), finalized.Root))) || (justified != old(fc.justified) && (g_unknown(gver, old(fc.finalized.Root), justified.Root) || !g_insub(gver, old(fc.finalized.Root), justified.Root))) ==> wver == old(wver) && vver == old(vver)
 
 //@ func (fc *ProtoForkChoice) updateVotesMaybe() err
-//@   property C17
+//@   property C17 C10
 //@   requires fc != nil && held(fc.mu) == 2 && fc.protoArray != nil && fc.voteStore != nil
-//@   assigns ghost(wver), ghost(vver)
+//@   assigns ghost(wver), ghost(vver), ghost(n_asc), ghost(last_asc_just), ghost(last_asc_fin)
 //@   ensures held(fc.mu) == 2
+//@   ensures scores_epochs@C10: n_asc <= old(n_asc) + 1 && (n_asc > old(n_asc) ==> last_asc_just == fc.justified.Epoch && last_asc_fin == fc.finalized.Epoch)
 
 //@ func (fc *ProtoForkChoice) SetPin(root, slot) err
 //@   property C10 C17
@@ -251,7 +258,7 @@ package forkchoice
 //@   property C17
 //@   opt section=mu
 //@   requires fc != nil && held(fc.mu) == 0 && fc.protoArray != nil && fc.voteStore != nil
-//@   assigns ghost(wver), ghost(vver), ghost(gcache)
+//@   assigns ghost(wver), ghost(vver), ghost(gcache), ghost(n_asc), ghost(last_asc_just), ghost(last_asc_fin)
 //@   ensures held(fc.mu) == 0
 //@   ensures atomic@C17: sections(fc.mu) <= old(sections(fc.mu)) + 1
 
@@ -259,6 +266,6 @@ package forkchoice
 //@   property C17
 //@   opt section=mu
 //@   requires fc != nil && held(fc.mu) == 0 && fc.protoArray != nil && fc.voteStore != nil && fc.spec != nil && fc.spec.SLOTS_PER_EPOCH != 0
-//@   assigns ghost(wver), ghost(vver), ghost(gcache)
+//@   assigns ghost(wver), ghost(vver), ghost(gcache), ghost(n_asc), ghost(last_asc_just), ghost(last_asc_fin)
 //@   ensures held(fc.mu) == 0
 //@   ensures atomic@C17: sections(fc.mu) <= old(sections(fc.mu)) + 1
